@@ -127,6 +127,7 @@ def writeRaw (mts : Nat) (fault : Option (Nat × Bool)) (last : Nat) (data : Byt
 inductive Ev
   | data (b : Bytes)
   | ioErr               -- USBError with errno ≠ 110
+  | timeout             -- USBError with errno 110 although more is scripted (the device answers late)
   deriving DecidableEq, Repr
 
 structure Cfg where
@@ -251,6 +252,7 @@ def readLoop (cfg : Cfg) : RS → List Ev → ROut
     | (rs, none) =>
       match ev with
       | .ioErr => { rs, left := script, res := .error .usbError }
+      | .timeout => { rs, left := script, res := .error .usbTimeout, abortTag := some rs.last }
       | .data resp =>
         match absorb cfg rs resp with
         | .error e => { rs, left := script, res := .error e }
@@ -271,6 +273,135 @@ def readLoop (cfg : Cfg) : RS → List Ev → ROut
 def readRaw (cfg : Cfg) (last : Nat) (num : Int) (script : List Ev) : ROut :=
   let readLen := if 0 < num ∧ num < cfg.mts then num.toNat else cfg.mts
   readLoop cfg { last, num, readLen } script
+
+/-! ### Abort sequences, `ask_raw`, `trigger` — what else moves the bTag or talks on the endpoints
+
+Control requests are answered from a script of status bytes (`ctrl`); an exhausted script answers
+STATUS_TRANSFER_NOT_IN_PROGRESS (0x81).  Logged: `(bRequest, wValue)` of every control request. -/
+
+def STATUS_SUCCESS : Nat := 1
+def STATUS_PENDING : Nat := 2
+def USB488_MSGID_TRIGGER : Nat := 128
+
+def popStatus : List Nat → Nat × List Nat
+  | [] => (129, [])
+  | s :: r => (s, r)
+
+/-- `while True: b = ctrl_transfer(CHECK_…_STATUS); sleep; if b[0] != PENDING: break` → (number of polls, last status, rest) -/
+def poll : List Nat → Nat × Nat × List Nat
+  | [] => (1, 129, [])
+  | s :: r => if s = STATUS_PENDING then ((poll r).1 + 1, (poll r).2.1, (poll r).2.2) else (1, s, r)
+
+structure AbortLog where
+  ctrl      : List (Nat × Nat) := []     -- (bRequest, wValue)
+  clearHalt : Bool := false              -- bulk_out_ep.clear_halt() called
+  bulkRead  : Option Nat := none         -- size of the Bulk-IN read done inside _abort_bulk_in
+  exc       : Option PyExc := none       -- exception raised *inside* the abort sequence (replaces the original one)
+  deriving Repr, DecidableEq
+
+/-- `_abort_bulk_out()` with `btag = self.last_btag` -/
+def abortOut (tag : Nat) (ctrl : List Nat) : AbortLog × List Nat :=
+  match popStatus ctrl with
+  | (s0, c1) =>
+    if s0 = STATUS_SUCCESS then
+      match poll c1 with
+      | (n, f, c2) =>
+        ({ ctrl := (1, tag) :: List.replicate n (2, 0), clearHalt := f = STATUS_SUCCESS }, c2)
+    else ({ ctrl := [(1, tag)] }, c1)
+
+/-- `_abort_bulk_in()` with `btag = self.last_btag`; `inScript` = what the Bulk-IN endpoint still has to say -/
+def abortIn (tag mts : Nat) (ctrl : List Nat) (inScript : List Ev) : AbortLog × List Nat × List Ev :=
+  match popStatus ctrl with
+  | (s0, c1) =>
+    if s0 = STATUS_SUCCESS then
+      match inScript with
+      | [] => ({ ctrl := [(3, tag)], bulkRead := some mts, exc := some .usbTimeout }, c1, [])
+      | .timeout :: r => ({ ctrl := [(3, tag)], bulkRead := some mts, exc := some .usbTimeout }, c1, r)
+      | .ioErr :: r => ({ ctrl := [(3, tag)], bulkRead := some mts, exc := some .usbError }, c1, r)
+      | .data _ :: r =>
+        match poll c1 with
+        | (n, _, c2) => ({ ctrl := (3, tag) :: List.replicate n (4, 0), bulkRead := some mts }, c2, r)
+    else ({ ctrl := [(3, tag)] }, c1, inScript)
+
+/-- `write_raw` including the abort sequence it runs after a time-out -/
+def writeRawA (mts : Nat) (fault : Option (Nat × Bool)) (last : Nat) (data : Bytes) (ctrl : List Nat) :
+    WOut × AbortLog × List Nat :=
+  let r := writeRaw mts fault last data
+  match r.abortTag with
+  | none => (r, {}, ctrl)
+  | some t => match abortOut t ctrl with
+    | (a, c) => (r, a, c)
+
+/-- `read_raw` including the abort sequence it runs after a time-out; an exception inside the abort sequence replaces
+the time-out -/
+def readRawA (cfg : Cfg) (last : Nat) (num : Int) (script : List Ev) (ctrl : List Nat) : ROut × AbortLog × List Nat :=
+  let r := readRaw cfg last num script
+  match r.abortTag with
+  | none => (r, {}, ctrl)
+  | some t => match abortIn t cfg.mts ctrl r.left with
+    | (a, c, left) =>
+      ({ r with left, res := match a.exc with | some e => .error e | none => r.res }, a, c)
+
+/-- `pack_usb488_trigger()` -/
+def packTrigger (last : Nat) : Nat × Bytes :=
+  (nextTag last, bulkOutHeader USB488_MSGID_TRIGGER (nextTag last) ++ List.replicate 8 0)
+
+/-- `trigger()`: the USB488 trigger message, or `*TRG` as an ordinary message -/
+def trigger (supportTrigger : Bool) (mts last : Nat) : WOut :=
+  if supportTrigger then { last := (packTrigger last).1, sent := [(packTrigger last).2] }
+  else writeRaw mts none last [42, 84, 82, 71]
+
+/-- `ask_raw(data, num)`: write, then read — the read is not attempted when the write raised.  (The Advantest
+lock()/unlock() control requests around it do not touch the bulk endpoints or the bTag.) -/
+def askRaw (cfg : Cfg) (last : Nat) (data : Bytes) (num : Int) (fault : Option (Nat × Bool)) (script : List Ev)
+    (ctrl : List Nat) : (WOut × AbortLog) × Option (ROut × AbortLog) :=
+  match writeRawA cfg.mts fault last data ctrl with
+  | (w, wa, c1) =>
+    match w.exc with
+    | some _ => ((w, wa), none)
+    | none =>
+      match readRawA cfg w.last num script c1 with
+      | (r, ra, _) => ((w, wa), some (r, ra))
+
+/-! ### `read_stb()` (USB488 READ_STATUS_BYTE) and `clear()` -/
+
+/-- `rstb_btag = (self.last_rstb_btag % 128) + 1; if rstb_btag < 2: rstb_btag = 2` -/
+def nextRstbTag (last : Nat) : Nat := if last % 128 + 1 < 2 then 2 else last % 128 + 1
+
+structure StbOut where
+  lastRstb : Nat
+  wValue   : Nat                   -- the bTag sent in the control request
+  readIntr : Bool := false         -- the interrupt endpoint was read
+  res      : Except PyExc Nat
+  deriving Repr
+
+/-- `read_stb()` on a USB488 interface.  `b0 b1 b2` = the three bytes the control request returns; `intr` = the two
+bytes the interrupt-IN endpoint delivers, `none` if the interface has no such endpoint. -/
+def readStb (lastRstb b0 b1 b2 : Nat) (intr : Option (Nat × Nat)) : StbOut :=
+  let tag := nextRstbTag lastRstb
+  if b0 = STATUS_SUCCESS then
+    if tag ≠ b1 then { lastRstb := tag, wValue := tag, res := .error .usbtmcMismatch }
+    else match intr with
+      | none => { lastRstb := tag, wValue := tag, res := .ok b2 }
+      | some (r0, r1) =>
+        if r0 ≠ tag + 128 then { lastRstb := tag, wValue := tag, readIntr := true, res := .error .usbtmcMismatch }
+        else { lastRstb := tag, wValue := tag, readIntr := true, res := .ok r1 }
+  else { lastRstb := tag, wValue := tag, res := .error .usbtmcMismatch }
+
+structure ClearOut where
+  ctrl       : List (Nat × Nat)
+  clearedOut : Bool := false
+  clearedIn  : Bool := false
+  exc        : Option PyExc := none
+  deriving Repr, DecidableEq
+
+/-- `clear()`: INITIATE_CLEAR, poll CHECK_CLEAR_STATUS while pending, clear both halts — or "Clear failed" -/
+def clearSeq (forceClearIn : Bool) (ctrl : List Nat) : ClearOut :=
+  match popStatus ctrl with
+  | (s0, c1) =>
+    if s0 = STATUS_SUCCESS then
+      { ctrl := (5, 0) :: List.replicate (poll c1).1 (6, 0), clearedOut := true, clearedIn := forceClearIn }
+    else { ctrl := [(5, 0)], exc := some .usbtmcMismatch }
 
 /-! ### Reference device (USBTMC 1.0 §3.2, Table 1–3): what a conforming device makes of Bulk-OUT transfers
 
@@ -315,6 +446,7 @@ answers (`last` = tag before that request) or whose bTagInverse is not the compl
 def hostSpec (check : Bool) : Nat → List Ev → Bytes → Option Bytes
   | _, [], _ => none
   | _, .ioErr :: _, _ => none
+  | _, .timeout :: _, _ => none
   | last, .data t :: rest, acc =>
     match unpackResp t with
     | none => none
